@@ -992,14 +992,14 @@ pub fn c14(big: bool) -> BoxedStrategy<Case> {
 }
 
 pub fn c08(big: bool) -> BoxedStrategy<Case> {
-    let max_ops = if big { 6 } else { 4 };
+    let max_ops = if big { 7 } else { 5 };
     // handles come from the registry operations themselves
-    let base = OpWeights { send: 4, call: 6, ping: 2, convert: 0, yield_: 10, sleep: 6, give: 0, drop: 6, stop: 12, halt: 3, try_stop: 0, await_: 3, max_sleep: 3, ..MSG_WEIGHTS };
-    let op = mixed_ops(base, vec![(50, reg_op(2, [10, 2, 5, 2, 3, 5, 4])), (6, msg_op(1, 1, ctx_work(1, 5, 0)))]);
+    let base = OpWeights { send: 3, call: 5, ping: 2, convert: 0, yield_: 8, sleep: 5, give: 0, drop: 4, stop: 30, halt: 8, try_stop: 0, await_: 3, max_sleep: 3, ..MSG_WEIGHTS };
+    let op = mixed_ops(base, vec![(48, reg_op(2, [12, 2, 5, 2, 2, 5, 4])), (8, msg_op(1, 1, ctx_work(1, 5, 0)))]);
     let nested = prop_oneof![6 => Just(false), 1 => Just(true)];
     let pre = prop_oneof![2 => Just(None), 1 => proptest::option::of(mailbox()).prop_map(Some)];
     (1usize..=4, nested, pre)
-        .prop_flat_map(move |(n, nested, pre)| (Just(nested), Just(pre), vec(vec(op.clone(), 1..=max_ops), n..=n), schedule(if big { 128 } else { 64 })))
+        .prop_flat_map(move |(n, nested, pre)| (Just(nested), Just(pre), vec(vec(op.clone(), 2..=max_ops), n..=n), schedule(if big { 128 } else { 64 })))
         .prop_map(|(nested, pre, clients, schedule)| {
             let mut default_beh = vec![Behavior::default(), Behavior::default()];
             if nested {
